@@ -49,7 +49,7 @@ def _gen(rng, i):
   level = 'full' if i % 5 == 4 else 'chain'
   initial, mx, exp = CONFIGS[(i // 2) % len(CONFIGS)]
   s = {'kind': kind, 'level': level, 'initial': initial, 'max': mx, 'exp': exp, 'rseed': rng.randint(0, 10 ** 6),
-       'down_mode': rng.choice(['refuse', 'refuse', 'refuse20', 'silent' if kind == 'mux' else 'refuse', 'blackhole']),
+       'down_mode': rng.choice(['refuse', 'refuse', 'refuse20', 'silent' if kind == 'mux' else 'refuse', 'blackhole', 'fin']),
        'start_up': rng.random() < 0.8, 'steps': []}
   if kind == 'thrift' and rng.random() < 0.25:
     s['pool'] = {'max_watermark': rng.choice([1, 2])}
@@ -211,6 +211,21 @@ def cases(prop, tier, seed):
                 'balancer': 'aperture1', 'down_mode': 'refuse', 'n': rng4.choice([2, 3]), 'focus': 'idle', 'auto_delay': 20000,
                 'steps': [['refuse_new'], ['pile', rng4.choice([6, 8, 12]), 30000], ['adv', rng4.choice([2500, 3500, 6000])],
                           ['close'], ['adv', 60000]]})
+  # the default aperture (one active member, one in reserve): the active one dies, the client moves to the reserve, that
+  # dies too, then ONE of them comes back and is the only reachable member: traffic must return to it
+  rng5 = random.Random(23 * int(seed) + 9)
+  for i in range(12 if tier == 'quick' else 96):
+    kind = 'thrift' if i % 2 else 'mux'
+    initial, mx, exp = [(2, 10, 1.5), (3, 20, 2.0)][(i // 2) % 2]
+    sp = rng5.choice([200, 500])
+    first = rng5.choice([0, 1])
+    back = rng5.choice([0, 1])
+    long_ = int(mx * 1000) + 9000
+    st = [['traffic', 2000, sp], ['reach', 0, first], [rng5.choice(['traffic', 'straffic']), rng5.choice([3000, long_]), sp],
+          ['reach', 0, 1 - first], ['adv', rng5.choice([1000, 20000])],
+          ['straffic', rng5.choice([3000, long_, 2 * long_]), rng5.choice([sp, 1000, 3000])], ['reach', 1, back], ['recover', sp]]
+    out.append({'kind': kind, 'level': 'multi', 'initial': initial, 'max': mx, 'exp': exp, 'rseed': rng5.randint(0, 10 ** 6),
+                'balancer': 'aperture1', 'down_mode': rng5.choice(['refuse', 'refuse20']), 'n': 2, 'focus': back, 'steps': st})
   # a member that is down (all its connections reset, or one reset and the others silent with calls still
   # outstanding on them) leaves the server set; later the client is closed: nothing dials it any more
   rng3 = random.Random(13 * int(seed) + 5)
@@ -470,6 +485,10 @@ def run_case(script):
           for c in net.conns:
             if down_mode == 'blackhole':
               c.user.pop('silent', None)
+        elif down_mode == 'fin':
+          for c in net.conns:
+            if c.connected and not c.closed:
+              c.feed_eof()          # an orderly close by the peer (idle reaper, restart); new connects are refused
         elif down_mode == 'blackhole':
           for c in net.conns:
             if c.connected and not c.closed:
@@ -723,6 +742,16 @@ def run_case_multi(script):
         if provider.on_leave:
           gevent.spawn(provider.on_leave, ScalesUriParser.Server(ZkEndpoint(h, 9090)))
         loop.run_until_idle()
+    elif k == 'straffic':
+      # light traffic: one call at a time
+      dur, spacing = op[1], op[2]
+      t_end = ms() + dur
+      while ms() < t_end and not env['closed']:
+        nreq[0] += 1
+        client._dispatcher.DispatchMethodCall('hi', ('r%d' % nreq[0],), {}, timeout=0.9)
+        loop.run_for(spacing / 1000.0)
+        loop.settle()
+      quiet()
     elif k == 'traffic':
       dur, spacing = op[1], op[2]
       t_end = ms() + dur
